@@ -110,6 +110,8 @@ func scenExec(out *scenOut, r *rng, thorough bool) {
 	execReleaseFails(out, "quit-msg")
 	execAfterEOF(out)
 	execProcessReal(out)
+	restartKeepsTicking(out, "release-restore")
+	restartKeepsTicking(out, "exec")
 	for i := 0; i < n; i++ {
 		bits := r.intn(32)
 		nexec := r.rangeIn(1, 3)
@@ -1099,5 +1101,88 @@ func execReleaseFailsOnceOnTTY(out *scenOut, cause string) {
 	if after != nil && *after != *before {
 		out.fail(finding{Property: "C05", Class: "new", What: "termios of the input terminal differ from those before Run (an Exec whose terminal release failed once happened in between)", Input: desc,
 			Expected: fmt.Sprintf("lflag=%#x", before.Lflag), Observed: fmt.Sprintf("lflag=%#x", after.Lflag)})
+	}
+}
+
+// restartKeepsTicking: the renderer is halted and restarted (ReleaseTerminal / RestoreTerminal, which is
+// what Exec and Suspend do) while the listener that is being stopped is slow between taking the stop
+// signal and what it does next (held at the trace point "listen: stop received"). After the restart
+// the program must render again: "the next view is fully repainted" (C17) needs a renderer that ticks.
+func restartKeepsTicking(out *scenOut, via string) {
+	ctl := newRecCtl()
+	buf := &safeBuffer{}
+	var armed, held, final int32
+	ctl.viewOf = func(version, ups int) string {
+		if atomic.LoadInt32(&final) == 1 {
+			return "restart FINAL view\nsecond line"
+		}
+		return fmt.Sprintf("restart count %d\nsecond line", ups)
+	}
+	reached := make(chan struct{})
+	goOn := make(chan struct{})
+	tea.VerifPauseHook = func(where string) {
+		if where == "listen: stop received" && atomic.LoadInt32(&armed) == 1 && atomic.CompareAndSwapInt32(&held, 0, 1) {
+			close(reached)
+			<-goOn
+		}
+	}
+	defer func() { tea.VerifPauseHook = nil }()
+	desc := "renderer halted and restarted (" + via + ") while the old listener is slow after taking the stop signal; then the view changes"
+	execDone := make(chan struct{})
+	ctl.onUpdate = func(m tea.Msg, v int) tea.Cmd {
+		if u, ok := m.(userMsg); ok && u.Sender == 7 && via == "exec" {
+			return tea.Exec(&fakeExec{run: func(*fakeExec) error { return nil }}, func(error) tea.Msg { close(execDone); return nil })
+		}
+		if u, ok := m.(userMsg); ok && u.Sender == 0 && u.Seq == 1 {
+			atomic.StoreInt32(&final, 1)
+		}
+		return nil
+	}
+	run := startProgram(ctl, buf, tea.WithInput(nil), tea.WithoutSignalHandler(), tea.WithFPS(60))
+	defer func() {
+		select {
+		case <-goOn:
+		default:
+			close(goOn)
+		}
+		killNow(run.p)
+		run.wait(3 * time.Second)
+	}()
+	run.p.Send(tea.WindowSizeMsg{Width: 80, Height: 24})
+	run.p.Send(userMsg{0, 0})
+	if !waitFor(3*time.Second, func() bool { return strings.Contains(buf.String(), "restart count 2") }) { // the size message and the first one
+		return
+	}
+	atomic.StoreInt32(&armed, 1)
+	if via == "exec" {
+		run.p.Send(userMsg{7, 0})
+		select {
+		case <-execDone:
+		case <-time.After(5 * time.Second):
+			out.fail(finding{Property: "C17", Class: "new", What: "Exec did not complete while the stopped listener was slow", Input: desc})
+			return
+		}
+	} else {
+		if err := run.p.ReleaseTerminal(); err != nil {
+			return
+		}
+		if err := run.p.RestoreTerminal(); err != nil {
+			return
+		}
+	}
+	select {
+	case <-reached:
+	case <-time.After(2 * time.Second):
+		return // the trace point was not passed (no such point in this tree): nothing to test
+	}
+	close(goOn) // the old listener goes on
+	time.Sleep(30 * time.Millisecond)
+	before := strings.Count(buf.String(), "restart count")
+	run.p.Send(userMsg{0, 1})
+	out.record("restart-keeps-ticking "+via, desc)
+	want := "restart FINAL view"
+	if !waitFor(3*time.Second, func() bool { return strings.Contains(buf.String(), want) }) {
+		out.fail(finding{Property: "C17", Class: "new", What: "after the terminal was taken back the renderer never paints again (its ticker was stopped by the listener of the previous run)",
+			Input: desc, Expected: "the view " + want + " on the terminal within 3 s (60 fps)", Observed: fmt.Sprintf("views painted before the change: %d, after: %d", before, strings.Count(buf.String(), "restart count"))})
 	}
 }
